@@ -565,7 +565,7 @@ func Run(c *corr.Ctx) {
 	addExhaustive(fullCfg, alphaWide, depth-1, "exh-multiconn")
 	addExhaustive(Cfg{Mask: 255, UDP: false, NMedias: 2}, alpha, 2, "exh-noudp")
 	addExhaustive(Cfg{Mask: 255, UDP: true, Mcast: true, NMedias: 2}, alphabetMcast(), 3, "exh-mcast")
-	addExhaustive(fullCfg, alphabetTCP(), c.N(4, 5), "exh-tcp")
+	addExhaustive(fullCfg, alphabetTCP(), 4, "exh-tcp")
 	c.Exhaustive()
 
 	// random conversations up to 12 requests, over several configurations
